@@ -100,8 +100,24 @@ def region_programs(ck, numpy, par, man, FakeDC, SPECS):
                             dc.finish_parallel_region()
                         elif op == "BeginLoop":
                             part = numpy.zeros(n)
-                            for k in par.block_distributed_range(0, n):
-                                part[k] += 1.0
+                            # every loop helper of the library must take the
+                            # same decision at the same level
+                            helper = (lid + len(prog)) % 4
+                            if helper == 0:
+                                for k in par.block_distributed_range(0, n):
+                                    part[k] += 1.0
+                            elif helper == 1:
+                                for k in par.block_distributed_list(
+                                        list(range(n))):
+                                    part[k] += 1.0
+                            elif helper == 2:
+                                for k in par.block_distributed_array(
+                                        numpy.arange(n)):
+                                    part[int(k)] += 1.0
+                            else:
+                                for i, k in par.block_distributed_array(
+                                        numpy.arange(n), return_index=True):
+                                    part[int(k)] += 1.0
                             open_loops.append((lid, part))
                             lid += 1
                         elif op == "EndLoop":
